@@ -11,6 +11,7 @@ git -C /repo worktree remove --force "$WT" >/dev/null 2>&1
 git -C /repo worktree add --detach "$WT" HEAD >/dev/null 2>&1 || { echo "worktree failed" >>"$LOG"; exit 2; }
 FLAGS=$(cat "$SD/demo_flags.txt" 2>/dev/null)
 run_demo() {
+  if [ -x "$SD/run_demo.sh" ]; then ( cd "$WT" && "$SD/run_demo.sh" "$WT/include" "$SD" >>"$LOG" 2>&1 ); return $?; fi
   g++ -std=c++17 $FLAGS -I "$WT/include" "$SD/demo.cpp" -o "$WT/demo_bin" >>"$LOG" 2>&1 || return 99
   ( cd "$WT" && timeout 120 ./demo_bin >>"$LOG" 2>&1 ); return $?
 }
